@@ -109,6 +109,42 @@ func OracleC17(res *Result) []Finding {
 				ct.DoneIdx, ct.ID, ct.TaskGen, ct.ClosedGen)
 		}
 	}
+	// an unsubscribe message ends the subscription that holds its id: by the time the reader asks for the next
+	// message, that subscription has ended
+	{
+		cur := map[string]int{}
+		pending := map[int]int{} // generation -> index of the event at which its unsubscribe was read
+		curMsg := -1
+		for i, e := range res.Events {
+			switch e.Kind {
+			case "read":
+				curMsg = e.Msg
+				if curMsg >= 0 && curMsg < len(res.Fed) && res.Fed[curMsg].Op == "unsubscribe" {
+					if g, ok := cur[res.Fed[curMsg].ID]; ok {
+						pending[g] = i
+					}
+				}
+			case "readwait", "readerr":
+				for g, at := range pending {
+					if g >= 0 && g < len(v.gens) && (v.gens[g].EndIdx < 0 || v.gens[g].EndIdx > i) {
+						add("c17-unsubscribe-ignored", "event %d: the unsubscribe for %q (read at event %d) has been processed, generation %d is still subscribed", i, v.gens[g].ID, at, g)
+					}
+					delete(pending, g)
+				}
+			case "log":
+				if !e.Sub {
+					delete(cur, e.ID)
+				}
+			case "hook":
+				switch e.Point {
+				case "conn.handleSubscribe.accept", "conn.handleMutate.accept":
+					cur[e.ID] = e.Gen
+				case "conn.closeSubscriptions.done":
+					cur = map[string]int{}
+				}
+			}
+		}
+	}
 	// its reactive resources are released: every resource registered by a computation of a subscription
 	// that has ended (all of them once the connection closed) has had exactly one Cleanup call
 	for resN, n := range v.cleanups {
